@@ -129,7 +129,7 @@ def gen_strings(rng, n):
     lits += ["2.5E+3", "1E+16", "1e+16", "6.02E23", "1.5E-1", "+.5E-1", "1E3", "1.E3", ".1E3", "1e3e3", "1.2.3", "1E3.5", "1..5", "--1", "+-1", "1 e3", "1e 3"]
     for l_ in lits:
         out.append(l_ + " m"); out.append(l_ + "m"); out.append(l_ + " " + rng.choice(["kg m/s^2", "s⁻¹", "K", "ft."]))
-    out += [l_ for l_ in lits[::4]]
+    out += lits + [l_ + "/s" for l_ in lits[::3]] + ["m/" + l_ for l_ in lits[::5]] + ["m*" + l_ for l_ in lits[::7]] + ["5 " + l_ for l_ in lits[::2]]
     out += ["", " ", "m", "m/s", "m//s", "m/s/s", "5", "5 5 m", "m^", "m^-", "m⁻", "5 m/", "/m", "*m", "m*", "m⋅⋅s", "m ² s", "1/s", "m^2^3", "5e m", "m²", "m s"]
     return out
 
